@@ -65,7 +65,7 @@ func (w *world) close() {
 // root, random shard ids masked) with their sizes.
 func (w *world) files() map[string]bool {
 	out := map[string]bool{}
-	base := filepath.Join(w.root, "nodeN", cluster.USERCOLSDIR)
+	base := filepath.Join(w.root, "nodeN", "shards", cluster.USERCOLSDIR)
 	filepath.Walk(base, func(p string, info os.FileInfo, err error) error {
 		if err != nil || info.IsDir() {
 			return nil
